@@ -278,7 +278,8 @@ class FunMachine:
     function of the values it reads."""
 
     def __init__(self, reads, outputs, salt, modulus=3, extra_vars=(),
-                 ranges=None):
+                 ranges=None, refuse=None):
+        self.refuse = refuse   # refuses (ValueError) when acc % refuse == 0
         self.reads = list(reads)
         self.outputs = list(outputs)
         self.salt = salt
@@ -304,5 +305,7 @@ class FunMachine:
                 acc = (acc * 31 + 17 * int(state[k]) + len(k)) % 1009
             else:
                 acc = (acc * 31 + 5) % 1009
+        if self.refuse and acc % self.refuse == 0:
+            raise ValueError('FunMachine: step disabled at this state')
         return {o: self._val(o, acc + 7 * i)
                 for i, o in enumerate(self.outputs)}
